@@ -86,7 +86,14 @@ def run_custom_replay(prop, scratch, test_names):
         s = open(p).read()
         modname = "verif_replay_" + re.sub(r"\W", "_", os.path.basename(modfile).replace(".rs", ""))
         if ("mod %s;" % modname) not in s:
-            s += "\n#[cfg(test)]\n#[path = \"%s\"]\nmod %s;\n" % (os.path.join(VERIF, modfile), modname)
+            decl = "\n#[cfg(test)]\n#[path = \"%s\"]\nmod %s;\n" % (os.path.join(VERIF, modfile), modname)
+            if rp.get("inside_tests"):
+                # child of the file's own `mod tests` (the LAST item of the file), so that the repository's private test helpers
+                # (service containers with a dozen dependencies) can be reused by `use super::*`
+                k = s.rstrip().rfind("}")
+                s = s[:k] + decl + s[k:]
+            else:
+                s += decl
             open(p, "w").write(s)
         for t in tests:
             cmd = ["cargo", "test", "-p", rp["crate"], "--lib", "--offline"] + (["--features", rp["features"]] if rp.get("features") else []) + \
